@@ -174,7 +174,8 @@ func Insert(host Sequence, index int, guest Sequence) Sequence {
 		ff = ff.Insert(f)
 	}
 	for _, f := range guest.Features() {
-		f.Loc = f.Loc.Expand(0, index)
+		// from before the first residue, so that a site at 0^1 is offset too
+		f.Loc = f.Loc.Expand(-1, index)
 		ff = ff.Insert(f)
 	}
 	host = WithFeatures(host, ff)
@@ -199,7 +200,8 @@ func Embed(host Sequence, index int, guest Sequence) Sequence {
 		ff = ff.Insert(f)
 	}
 	for _, f := range guest.Features() {
-		f.Loc = f.Loc.Expand(0, index)
+		// from before the first residue, so that a site at 0^1 is offset too
+		f.Loc = f.Loc.Expand(-1, index)
 		ff = ff.Insert(f)
 	}
 	host = WithFeatures(host, ff)
@@ -305,7 +307,7 @@ func Concat(ss ...Sequence) Sequence {
 
 		for _, seq := range tail {
 			for _, f := range seq.Features() {
-				f.Loc = f.Loc.Expand(0, len(p))
+				f.Loc = f.Loc.Expand(-1, len(p))
 				ff = ff.Insert(f)
 			}
 			p = append(p, seq.Bytes()...)
